@@ -40,29 +40,37 @@ def findings_table():
     return "\n".join(rows)
 
 
+def _verdict(v):
+    if not isinstance(v, dict) or "exit_status" not in v:
+        return None
+    if v.get("caught"):
+        return "caught, failing input" if v.get("found_failing_input") else "caught, no-failing-input-found (proof / correspondence / translator named)"
+    return "**missed**"
+
+
 def seeded_table():
-    rows = ["| seeded change | what it breaks (independent sub-agent, property text only) | confirmed (demo fails with / passes without, suite green) | `./check` verdict | replay |",
+    rows = ["| seeded change | what it breaks (independent sub-agent, property text only) | confirmed | verdict of the check as it stood when the change arrived | verdict of the current check (after strengthening) |",
             "|----|----|----|----|----|"]
-    for p in sorted(glob.glob(os.path.join(ROOT, "seeded", "C*-*", "meta.json"))):
+    for p in sorted(glob.glob(os.path.join(ROOT, "seeded", "C*-*", "meta.json")),
+                    key=lambda q: (os.path.basename(os.path.dirname(q)).split("-")[0], int(os.path.basename(os.path.dirname(q)).split("-")[1]))):
         m = json.load(open(p))
         name = os.path.basename(os.path.dirname(p))
-        v = m.get("verif", {})
-        verdict = "not run"
-        if v:
-            if v.get("caught"):
-                verdict = "caught — " + ("failing input found" if v.get("found_failing_input") else "no-failing-input-found (proof / correspondence / translator named)")
-            else:
-                verdict = "**missed**"
+        first = _verdict(m.get("verif")) or "not run"
+        latest = None
+        for key in ("verif_now", "verif_after"):
+            v = m.get(key)
+            if isinstance(v, dict) and "exit_status" not in v:      # per-property dict (checked by several properties)
+                v = v.get(m.get("property")) or next(iter(v.values()), None)
+            latest = _verdict(v)
+            if latest:
+                commit = v.get("verif_commit") if isinstance(v, dict) else None
+                latest += (" (@%s)" % commit) if commit else ""
+                break
         if m.get("strengthened"):
-            verdict += "; then strengthened: " + str(m["strengthened"])[:300].replace("|", "\\|").replace("\n", " ")
-        if m.get("verif_after"):
-            va = m["verif_after"]
-            verdict += "; re-run: " + (va if isinstance(va, str) else json.dumps(va))[:220].replace("|", "\\|").replace("\n", " ")
-        detail = (v.get("detail") or [""])[0]
-        detail = re.sub(r"^\[C\d+\] ", "", detail)[:160].replace("|", "\\|")
-        rows.append("| %s | %s | %s | %s | %s |" % (name, m.get("summary", "").replace("|", "\\|")[:260],
+            first += "; strengthened: " + str(m["strengthened"])[:220].replace("|", "\\|").replace("\n", " ")
+        rows.append("| %s | %s | %s | %s | %s |" % (name, m.get("summary", "").replace("|", "\\|").replace("\n", " ")[:240],
                                                    "yes" if m.get("confirmed_ok") else "no: " + json.dumps(m.get("confirmed", {}))[:80],
-                                                   verdict, detail))
+                                                   first, latest or "—"))
     return "\n".join(rows)
 
 
